@@ -583,6 +583,18 @@ Proof.
   - intros ents. apply Coh_bind; [apply Coh_pid|]. intros; apply Coh_ret.
 Qed.
 
+Lemma Coh_call_key : forall o k, Coh (call_key o k).
+Proof.
+  intros o k. destruct k; simpl.
+  - apply Coh_call_pit.
+  - apply Coh_call_attr.
+  - apply Coh_call_unique.
+  - apply Coh_call_ordered.
+  - apply Coh_call_direct.
+  - apply Coh_call_mtt.
+  - apply Coh_call_mwt.
+Qed.
+
 Theorem Coh_run_query : forall cfg o q, Coh (run_query cfg o q).
 Proof.
   intros cfg o q. destruct q; simpl.
@@ -594,4 +606,7 @@ Proof.
   - apply Coh_bind; [apply Coh_q_models|]. intros; apply Coh_ret.
   - apply Coh_bind; [apply Coh_q_unit|]. intros; apply Coh_ret.
   - apply Coh_q_allpaths.
+  - apply Coh_bind; [apply Coh_call_key|]. intros c.
+    apply Coh_bind; [apply Coh_as_list|]. intros l.
+    apply Coh_bind; [apply Coh_pid|]. intros; apply Coh_ret.
 Qed.
